@@ -76,9 +76,22 @@ def letters(pal):
         "RO": ("RLoad", dict(rs=_r(97.0 * kr), rt=0.0, loss=False)),
         "ROx": ("RLoad", dict(rs=_r(61.0 * kr), rt=2.5, loss=True)),
     }
+    # degenerate letters: exact zeros / ones / equalities, where a comparison operator or a special-cased branch decides
+    L.update({
+        "RL0": ("RLoss", dict(rs=0.0, rt=3.0)),
+        "VL0": ("VLoss", dict(vdrop=0.0)),
+        "CVe": ("Converter", dict(vo=_r(3.3 * kv), eff=1.0, iq=0.0, iis=0.0, rt=11.0)),
+        "LRe": ("LinReg", dict(vo=_r(V - 0.5 * kd), vdrop=_r(0.5 * kd), ig=0.0)),      # vo == Vsource - vdrop exactly: the min() is a tie under the source
+        "PS0": ("PSwitch", dict(rs=0.0, ig=0.0, iis=0.0)),
+        "RM0": ("Rectifier", dict(vdrop=0.0, rs=0.0, ig=0.0, iq=0.0)),
+        "MX0": ("PMux", dict(rs=0.0, ig=0.0)),
+        "IL0": ("ILoad", dict(ii=0.0, rt=5.0)),
+        "PL0": ("PLoad", dict(pwr=0.0, pwrs=0.0)),
+    })
     return L
 
 
+SIG_ZERO = (["RL0", "VL0", "CVe", "LRe", "PS0", "RM0", "MX0", "CVc"], ["IL0", "PL0", "IL", "RO"])
 SIG_FULL = (["RL", "VLc", "VL1", "VL2", "CVc", "CV1", "CV2", "CVb", "CVi", "LRc", "LR1", "LR2", "LRd", "PSc", "PS1",
              "RDc", "RD1", "RMc", "RM1", "MX"], ["PL", "PLx", "IL", "ILx", "RO", "ROx"])
 SIG_MID = (["RL", "VL1", "CVc", "CV2", "LRc", "LRd", "PSc", "RDc", "RMc", "MX"], ["PL", "ILx", "RO"])
